@@ -170,12 +170,11 @@ def run_matrix(case):
 
     async def main():
         for ci, cfg in enumerate(case["configs"]):
-            scheme, port_kind, proxy, http1, http2, server_alpn, sni = cfg
+            scheme, port_kind, proxy, http1, http2, server_alpn, sni, host = cfg
             dflt = {"http": 80, "https": 443, "ws": 80, "wss": 443}[scheme]
             port_eff = dflt if port_kind in ("implicit", "explicit-default") else dflt + 8000
             # the host is a name, an IPv4 literal or an IPv6 literal (bracketed in the URL and in authorities, bare as a
             # connect address, SOCKS address and TLS server name)
-            host = HOSTS[(ci + case.get("seed", 0)) % len(HOSTS)]
             uhost = f"[{host}]" if ":" in host else host
             net, origins, px, pool, api = build(flavor, proxy, http1, http2, server_alpn, [(host, port_eff)])
             cnt["configs"] += 1
@@ -192,6 +191,10 @@ def run_matrix(case):
                 if judge_request(net, origins, px, proxy, http1, http2, scheme, host, port_eff, tok,
                                  "sni.example" if sni else None, cnt, v, ctx):
                     delivered += 1
+                elif out.kind == "ok":
+                    # answered, but not by the origin the URL names (e.g. a proxy that could not make sense of the target)
+                    v(f"request-never-reached-the-origin:{scheme}:{proxy or 'direct'}",
+                      f"status {getattr(out.value, 'status', None)} and no request at {host}:{port_eff}", ctx)
                 if out.kind != "ok":
                     cnt["requests_failed"] += 1
                     # an ALPN mismatch the client cannot serve (h2 selected, http2 disabled cannot happen: server only
@@ -256,7 +259,10 @@ def run_sequences(case):
                        "port_kind": "explicit" if (explicit or port != dflt) else "implicit",
                        "shared_ssl_context": shared is not None, "pools": len(pools), "pool": pool_i}
                 out = await guarded(flavor, lambda: api_i.request("GET", f"{scheme}://{hp}/s", headers=[("X-Token", tok)]))
-                judge_request(net, origins, px, proxy, True, http2_i, scheme, host, port, tok, None, cnt, v, ctx)
+                if not judge_request(net, origins, px, proxy, True, http2_i, scheme, host, port, tok, None, cnt, v, ctx) \
+                        and out.kind == "ok":
+                    v(f"request-never-reached-the-origin:{scheme}:{proxy or 'direct'}",
+                      f"status {getattr(out.value, 'status', None)} and no request at {host}:{port}", ctx)
                 for (h, p), o in origins.items():
                     for req, resp in o.by_token.get(tok.encode(), []):
                         carried.setdefault(req.tr, set()).add((scheme, host, port, pool_i))
@@ -285,10 +291,11 @@ def run_case(case):
 
 def plan(tier, seed):
     configs = []
-    for scheme, port_kind, proxy, (h1, h2), alpn, sni in itertools.product(
+    for scheme, port_kind, proxy, (h1, h2), alpn, sni, host in itertools.product(
             ["http", "https", "ws", "wss"], ["implicit", "explicit-default", "other"], PROXIES,
-            [(True, False), (True, True), (False, True)], [None, ["http/1.1"], ["h2", "http/1.1"]], [False, True]):
-        configs.append([scheme, port_kind, proxy, h1, h2, alpn, sni])
+            [(True, False), (True, True), (False, True)], [None, ["http/1.1"], ["h2", "http/1.1"]], [False, True],
+            sorted(set(HOSTS))):
+        configs.append([scheme, port_kind, proxy, h1, h2, alpn, sni, host])
     cases = []
     flavors = ["asyncio", "trio", "sync"]
     n = 24
